@@ -289,6 +289,18 @@ def run(case):
             Fref = np.eye(3)
             Fref[:d, :d] = F0
             c.close(f"map{k}/F", "deformation gradient must be uniform at every quadrature point", Fq, np.broadcast_to(Fref[:, :, None, None], Fq.shape), scale=1.0)
+            # reaction force on one face of the box (boundary objects with and without skipped components, and given by a point
+            # mask): all components of P N A, with P the material's stress at the prescribed homogeneous deformation gradient
+            if not fam.endswith("mini") and not fam.startswith("lagrange"):
+                Pm = np.asarray(um.gradient([np.ascontiguousarray(Fref[:, :, None, None]), None])[0], float)[:, :, 0, 0]
+                lo_, hi_ = P.min(0), P.max(0)
+                area = float(np.prod([hi_[j] - lo_[j] for j in range(d) if j != 0]))
+                onface = np.isclose(P[:, 0], hi_[0])
+                refF = Pm[:d, 0] * area
+                for blab, bnd in (("skip-none", fem.Boundary(field[0], mask=onface)), ("skip-transversal", fem.Boundary(field[0], mask=onface, skip=(False, True, True)[:d])), ("skip-normal", fem.Boundary(field[0], mask=onface, skip=(True, False, False)[:d]))):
+                    fr = np.ravel(fem.tools.force(res.x, res.fun, bnd))[:d]
+                    c.trans += 1
+                    c.close(f"map{k}/force/{blab}", "tools.force on a face = P N A in ALL components, whatever components the boundary object prescribes", fr, refF, scale=max(np.abs(refF).max(), 0.1))
         return c.result(dict(case=case["key"], points=int(mesh.npoints), interior=int((~onb).sum())))
     if kind in ("uniaxial", "biaxial"):
         fam, mat, n = case["fam"], case["mat"], case["n"]
